@@ -879,7 +879,13 @@ func (c *syntaxLoader) convertPart(p ast.RhsPart, nonterm *syntax.Nonterm, under
 			args.Names = make(map[string][]int)
 			for k, v := range rhs.names {
 				if !c.aliasOptSuffix && len(k) > len(c.optSuffix) && strings.HasSuffix(k, c.optSuffix) {
-					k = strings.TrimSuffix(k, c.optSuffix)
+					trimmed := strings.TrimSuffix(k, c.optSuffix)
+					if _, exists := rhs.names[trimmed]; exists {
+						// The rule refers to both "foo" and "fooopt": the exact name wins (and the
+						// result does not depend on the iteration order of the map).
+						continue
+					}
+					k = trimmed
 				}
 				args.Names[k] = v
 			}
